@@ -1281,6 +1281,12 @@ class Mps(MatrixProduct):
             if self.evolve_config.ivp_solver != "krylov":
                 coef = 1j
 
+        # the sweeps start from the quantum number center and assume that it is the canonical center
+        if mps.to_right:
+            mps.ensure_right_canonical()
+        else:
+            mps.ensure_left_canonical()
+
         # construct the environment matrix
         # almost half is not used. Not a big deal.
         environ = Environ(mps, mpo)
@@ -1419,6 +1425,12 @@ class Mps(MatrixProduct):
             mps = self.to_complex()
             if self.evolve_config.ivp_solver != "krylov":
                 coef = 1j
+
+        # the sweeps start from the quantum number center and assume that it is the canonical center
+        if mps.to_right:
+            mps.ensure_right_canonical()
+        else:
+            mps.ensure_left_canonical()
 
         # construct the environment matrix
         # almost half is not used. Not a big deal.
